@@ -1,7 +1,9 @@
 #!/bin/bash
 # Runs every seeded change against the check of the property it was written for; prints one line each.
+# Seeds whose meta.json carries "obsolete" (made equivalent by a later fix: commit in /repo) are skipped.
 cd /verif
 for d in seeded/*/; do
   sid=$(basename $d); prop=${sid%%-*}
+  if grep -q '"obsolete"' $d/meta.json; then echo "$sid skipped (obsolete)"; continue; fi
   tools/runseed.sh $sid $prop quick
 done
